@@ -35,7 +35,7 @@ SPEC = {
 ALGS = ["PowerMethod", "GradientMethod", "GradientMethod-acc", "GradientMethod-box-acc",
         "ConjugateGradient", "ConjugateGradient-b0", "ConjugateGradient-xstar",
         "ConjugateGradient-illcond", "PDHG",
-        "PDHG-acc", "PDHG-zero-l1-smallsigma", "PDHG-zero-box", "AltMin",
+        "PDHG-acc", "PDHG-zero-l1-smallsigma", "PDHG-zero-l1-sigma0", "PDHG-zero-box", "AltMin",
         "AugmentedLagrangianMethod", "ADMM", "SDMM", "SDMM-norm", "NewtonsMethod",
         "NewtonsMethod-bt", "GerchbergSaxton", "GradientMethod-sol0", "GradientMethod-nested",
         "GradientMethod-iso", "GradientMethod-iso-acc", "NewtonsMethod-zero",
@@ -207,6 +207,15 @@ def make_alg(kind, rng, mi):
             x = np.zeros(n, M.dtype)
             sigma = 1e-3 / nA
             tau = 0.9 / (nA * nA * sigma)
+            proxg = sp.prox.L1Reg([n], 0.5 * float(np.max(np.abs(M.conj().T @ y))))
+        elif kind == "PDHG-zero-l1-sigma0":
+            # the same with an array-valued dual step that holds an exact zero (a zero-weight
+            # sample used as dual preconditioner): that dual coordinate is frozen, the others
+            # move - any residual formed as step / sigma meets 0 / 0 there
+            x = np.zeros(n, M.dtype)
+            sigma = np.full(m, 1e-3 / nA)
+            sigma[int(rng.integers(m))] = 0.0
+            tau = 0.9 / (nA * nA * 1e-3 / nA)
             proxg = sp.prox.L1Reg([n], 0.5 * float(np.max(np.abs(M.conj().T @ y))))
         elif kind == "PDHG-zero-box":
             x = np.zeros(n)
